@@ -209,7 +209,7 @@ class DOO(Algorithm):
         for i in self.partition.get_node_list():
             for node in i:
                 reward = node.get_reward()
-                if reward >= max_value:
+                if node.visited and reward >= max_value:
                     max_value = reward
                     max_node = node
 
